@@ -183,6 +183,24 @@ APPEND = {
     ("C08_no_lost_wakeup", "no_lost_wakeup", "GLOBAL: a notification is never lost: after notify, over any steps of any threads, the wait proceeds and acquires the notifier's clock"),
     ("C08_blocked_waiter_stays", "blocked_waiter_stays", "a blocked waiter is not resumed by anything but a notify on its object"),
     ("C08_spurious_at_most_once", "spurious_at_most_once", "at most one spurious return per Notify"),
+ ]), ("LV.NotifyFacts LV.ParkFacts", "thread::park / unpark over whole interleavings (ParkFacts.v; the token is a field of its own since fix 91a3e2b)", [
+    ("C08_token_persists", "token_persists", "a park token survives every micro-step of every thread except the owner's own park: blocking on / being woken by a lock, a channel, a join, a notify neither consumes nor loses it (defect D11)"),
+    ("C08_unpark_effect", "unpark_effect", "EXACT effect of unpark: a parked target becomes Runnable, any other live target keeps its state and gets the token, a terminated one is left alone; the target acquires the unparker's clock; nothing else changes"),
+    ("C08_park_effect_token", "park_effect_token", "park with a token consumes it and does not block"),
+    ("C08_park_blocks", "park_blocks", "park without a token blocks and hands the processor over"),
+    ("C08_no_lost_unpark", "no_lost_unpark", "GLOBAL: after an unpark, whatever happens in between, the target's next park does not block (or it was parked and is Runnable now)"),
+    ("C08_parked_stays_parked", "parked_stays_parked", "a parked thread is resumed only by an unpark of it or by a condvar notify that pops it: not by lock releases, sends, notify posts or the scheduler (defect D5)"),
+ ]), ("LV.Ref LV.Outcome LV.Witness LV.NotifyFacts LV.ParkFacts LV.CondvarFacts", "Condvar over whole interleavings (CondvarFacts.v)", [
+    ("C08_cv_queue_step_shape", "cv_queue_step_shape", "the waiter queue changes only by a registration at the back (wait), a pop at the front (notify_one) or being emptied (notify_all)"),
+    ("C08_reg_persists", "reg_persists", "a registered waiter stays registered until a notify pops it"),
+    ("C08_notify_one_wakes_front", "notify_one_wakes_front", "notify_one pops exactly the front waiter and unparks it with the notifier's clock; all other threads and objects are untouched"),
+    ("C08_notify_one_empty_noop", "notify_one_empty_noop", "on an empty queue notify_one does nothing: the notification is not stored (std's contract)"),
+    ("C08_notify_all_wakes_all", "notify_all_wakes_all", "notify_all wakes every registered waiter"),
+    ("C08_cv_wait_returns_only_after_notify", "cv_wait_returns_only_after_notify", "a waiter parked in wait stays parked and registered under every step that neither notifies a queue that pops it nor unparks it"),
+    ("C08_cv_no_lost_wakeup", "cv_no_lost_wakeup", "a notify that pops a waiter that has registered but not yet parked is not lost: its park returns at once"),
+    ("C08_cv_waiter_reacquires", "cv_waiter_reacquires", "the step that ends the wait runs on a free mutex, leaves the waiter as its owner and acquires the mutex's view"),
+    ("C08_cv_wakeup_hb", "cv_wakeup_hb", "the notifier's prior writes happen-before the woken thread's continuation"),
+    ("C08_unpark_satisfies_condvar_wait", "unpark_satisfies_condvar_wait", "observed (computed): Condvar::wait parks through the thread's park token, so a stray Thread::unpark ends a wait nobody notified (a spurious wake-up std permits) and leaves a stale queue entry"),
  ])],
  "C07": [("LV.ExecFacts LV.SyncMono LV.ExclFacts", "MUTUAL EXCLUSION AS A GLOBAL INVARIANT of every run of every program (ExclFacts.v)", [
     ("C07_run_excl_inv", "run_excl_inv", "the exclusion invariant (lock word = the one thread inside; a write guard excludes every other guard; registered readers own guards) holds in the final state of every non-panicking run; every intermediate state is such a final state for smaller fuel"),
